@@ -66,6 +66,9 @@ func verifStartFaultyBackend() (addr string, stop func()) {
 					case strings.HasPrefix(p, "/status-1000"):
 						fmt.Fprintf(c, "HTTP/1.1 1000 Long\r\nContent-Length: 2\r\n\r\nok")
 						return
+					case strings.HasPrefix(p, "/setcookie-malformed"):
+						// a healthy response whose Set-Cookie lines net/http cannot parse (session tracking reads them)
+						fmt.Fprintf(c, "HTTP/1.1 200 OK\r\nSet-Cookie: novalue\r\nSet-Cookie: =x\r\nSet-Cookie: lang=\xe6\x97\xa5\xe6\x9c\xac\r\nSet-Cookie: a\\b=c\r\nSet-Cookie: sp ace=1\r\nSet-Cookie: ok=1; Path=/\r\nContent-Length: 2\r\n\r\nok")
 					case strings.HasPrefix(p, "/malformed-status"):
 						fmt.Fprintf(c, "HTTP/1.1 abc nonsense\r\n\r\n")
 						return
@@ -131,7 +134,7 @@ func TestVerifC07(t *testing.T) {
 	for _, k := range []string{"neterr-x3", "500-x3", "neterr-then-ok", "404", "garbage", "badheader"} {
 		faults = append(faults, fault{"fetch", k})
 	}
-	for _, k := range []string{"unreachable", "close-before-headers", "close-mid-headers", "reset-mid-body", "close-mid-chunked", "malformed-status", "garbage", "bad-chunk", "huge-header", "status-099", "status-000", "status-999", "status-1000"} {
+	for _, k := range []string{"unreachable", "close-before-headers", "close-mid-headers", "reset-mid-body", "close-mid-chunked", "malformed-status", "garbage", "bad-chunk", "huge-header", "status-099", "status-000", "status-999", "status-1000", "setcookie-malformed"} {
 		faults = append(faults, fault{"backend", k})
 	}
 	for _, k := range []string{"500-x3", "neterr-x3", "500-then-ok"} {
@@ -321,27 +324,46 @@ func TestVerifC07(t *testing.T) {
 						}
 					}
 				}
-				for n := 1; n <= 40 && strings.HasSuffix(f.Kind, "-then-use"); n++ {
+				// the calls naming the session IDs a failed or finished open may have been given: first every poll, then every
+				// data post, then every close - one phase at a time, so that which call meets the session first does not depend on
+				// the scheduling of the workers
+				phases := [][]string{gids}
+				if strings.HasSuffix(f.Kind, "-then-use") {
+					phases = nil
 					for _, ep := range []string{"poll", "data", "close"} {
-						gid := fmt.Sprintf("%s-use-%s-%d", fid, ep, n)
-						body := fmt.Sprintf(`{"id":"%d"}`, n)
-						if ep == "data" {
-							body = fmt.Sprintf(`{"id":"%d","msg":"x"}`, n)
+						var ph []string
+						for n := 1; n <= 40; n++ {
+							gid := fmt.Sprintf("%s-use-%s-%d", fid, ep, n)
+							body := fmt.Sprintf(`{"id":"%d"}`, n)
+							if ep == "data" {
+								body = fmt.Sprintf(`{"id":"%d","msg":"x"}`, n)
+							}
+							fpG.addRequest(gid, "u@example.com", mkReq("POST", "/verifshim/"+ep, body), nil)
+							ph = append(ph, gid)
 						}
-						fpG.addRequest(gid, "u@example.com", mkReq("POST", "/verifshim/"+ep, body), nil)
-						gids = append(gids, gid)
+						phases = append(phases, ph)
+						gids = append(gids, ph...)
 					}
 				}
-				fpG.lists = [][]string{gids}
-				ctxG, cancelG := context.WithCancel(context.Background())
-				fpG.afterList = cancelG
-				doneG := make(chan struct{})
-				go func() {
-					pollForNewRequests(ctxG, &http.Client{Transport: fpG}, handler, "verif-backend")
-					close(doneG)
-				}()
-				<-doneG
-				fpG.quiesce(300*time.Millisecond, 15*time.Second, func() bool { fpG.mu.Lock(); defer fpG.mu.Unlock(); return len(fpG.uploads) >= len(gids) })
+				want := 0
+				for _, ph := range phases {
+					want += len(ph)
+					fpP := fpG
+					fpP.mu.Lock()
+					fpP.lists = [][]string{ph}
+					fpP.listCalls = 0
+					fpP.mu.Unlock()
+					ctxG, cancelG := context.WithCancel(context.Background())
+					fpP.afterList = cancelG
+					doneG := make(chan struct{})
+					go func() {
+						pollForNewRequests(ctxG, &http.Client{Transport: fpP}, handler, "verif-backend")
+						close(doneG)
+					}()
+					<-doneG
+					w := want
+					fpG.quiesce(300*time.Millisecond, 15*time.Second, func() bool { fpG.mu.Lock(); defer fpG.mu.Unlock(); return len(fpG.uploads) >= w })
+				}
 				fpG.mu.Lock()
 				for _, u := range fpG.uploads {
 					followup = append(followup, u.Status)
